@@ -8,7 +8,7 @@ use librqbit_utp::verif as v;
 use ringbuf::traits::{Consumer, Observer};
 use tokio::io::AsyncWrite;
 
-use crate::util::{counting_waker, guarded, pattern};
+use crate::util::{counting_waker, guarded, pattern, WakerSet};
 
 pub fn ring_digest(tx: &v::UserTx) -> (usize, u64, usize) {
     let c = tx.consumer.lock();
@@ -30,9 +30,10 @@ pub fn dispatch(t: &[&str]) -> Option<String> {
     let tx = v::UserTx::new(NonZeroUsize::new(initial).unwrap());
     let mut wh: Option<UtpStreamWriteHalf> = Some(UtpStreamWriteHalf::new(tx.clone()));
     let (dc, dw) = counting_waker();
-    let (wc, ww) = counting_waker();
+    let mut wset = WakerSet::new();
     let mut out: Vec<String> = Vec::new();
     for tok in &t[3..] {
+        let ww = wset.fresh();
         let r = guarded(|| {
             let mut wcx = Context::from_waker(&ww);
             let dcx = Context::from_waker(&dw);
@@ -118,9 +119,10 @@ pub fn dispatch(t: &[&str]) -> Option<String> {
                 for _ in 0..dc.take() {
                     wakes.push('D');
                 }
-                for _ in 0..wc.take() {
-                    wakes.push('W');
+                if res == "WP" || res == "PEND" {
+                    wset.returned_pending();
                 }
+                wakes.push_str(&wset.letters('W', 'w', false));
                 if wakes.is_empty() {
                     wakes.push('-');
                 }
